@@ -101,6 +101,17 @@ class Gen:
     def sample(self):
         r = self.r
         k = r.random()
+        if k < 0.04:
+            # a sample with many records (host agents send dozens, most of types a collector skips by their length)
+            n = r.choice([16, 17, 20, 33, 40])
+            recs = [self.xrec(r.choice([[0, 0, 7, 208], [0, 0, 7, 209], [0, 0, 8, 52], [0, 1, 0, 1]]), self.octets(r.choice([0, 4, 8]))) for _ in range(n - 1)]
+            if r.random() < 0.5:
+                recs.insert(r.randrange(len(recs) + 1), self.xrec(u32(1), self.octets(COUNTER_W[1])))
+                body = self.w32() + self.octets(4) + u32(len(recs))
+                return 2, self.xrec([0, 0, 0, 2], body + [o for x in recs for o in x])
+            recs.insert(r.randrange(len(recs) + 1), self.xrec([0, 0, 3, 233], self.octets(16)))
+            body = self.w32() + self.octets(4) + self.w32() + self.w32() + self.w32() + self.w32() + self.w32() + u32(len(recs))
+            return 1, self.xrec([0, 0, 0, 1], body + [o for x in recs for o in x])
         if k < 0.45:
             recs = [self.flow_record() for _ in range(r.choice([0, 1, 1, 2, 3, 5]))]
             body = self.w32() + self.octets(4) + self.w32() + self.w32() + self.w32() + self.w32() + self.w32() + u32(len(recs))
